@@ -294,6 +294,7 @@ func genOrder(r *vh.Rng, id int64) *livesim.LOrder {
 	case 2:
 		o.ClosedAt = ip(5)
 	}
+	o.Consent = []livesim.Consent{livesim.No, livesim.Yes, livesim.Unanswered, livesim.Unanswered}[r.Intn(4)]
 	return o
 }
 
@@ -304,7 +305,16 @@ func genFilter(r *vh.Rng, table string) sqlgen.Filter {
 	for i := 0; i < n; i++ {
 		if table == "closed_orders" {
 			o := genOrder(r, 1)
-			switch r.Intn(4) {
+			switch r.Intn(6) {
+			case 4:
+				f["consent"] = o.Consent // Unanswered: consent IS NULL
+			case 5:
+				if r.Bool() {
+					f["consent"] = nil
+				} else {
+					c := o.Consent
+					f["consent"] = &c
+				}
 			case 0:
 				f["state"] = o.State
 			case 1:
